@@ -195,6 +195,24 @@ func (e *Env) Build(p *prog.Program, f *Front, hooks *minicl.Hooks) *Result {
 	return e.BuildWith(p, f, hooks, nil)
 }
 
+// Probe reports whether a program loads (parses and type-checks) without building it.
+func (e *Env) Probe(p *prog.Program) error {
+	if p.Corpus != "" {
+		if e.Corpus[p.Corpus] == nil {
+			return fmt.Errorf("corpus package %s not admitted", p.Corpus)
+		}
+		return nil
+	}
+	fset := token.NewFileSet()
+	im := e.Exports.NewImporter(fset, p.Synthetics())
+	var src []minicl.SrcFile
+	for _, sf := range p.Files {
+		src = append(src, minicl.SrcFile{Name: sf.Name, Text: sf.Text})
+	}
+	_, _, _, err := minicl.Load(fset, p.PkgPath, src, im)
+	return err
+}
+
 // BuildSalted builds p with salted synthetic import paths and removes the salt from the
 // files written, so that results of different salts are comparable.
 func (e *Env) BuildSalted(p *prog.Program, f *Front, hooks *minicl.Hooks, salt int) *Result {
@@ -383,6 +401,15 @@ func (e *Env) build(p *prog.Program, f *Front, hooks *minicl.Hooks, ce *CorpusEn
 			r.Names = append(r.Names, sf.Name)
 		}
 	}
+	// only files the package really has (a source file all of whose declarations went
+	// elsewhere, or were outside the subset, was never created)
+	kept := r.Names[:0]
+	for _, n := range r.Names {
+		if _, ok := c.Pkg.File(n); ok {
+			kept = append(kept, n)
+		}
+	}
+	r.Names = kept
 	sort.Strings(r.Names)
 	worder := append([]string(nil), r.Names...)
 	if len(f.WriteOrder) > 0 && len(worder) > 1 {
